@@ -335,7 +335,7 @@ def monitor_one(trace, names, work, idx):
     return viol, nlines
 
 
-def monitor(traces, names, work, until_clean=True):
+def monitor(traces, names, work, until_clean=True, rounds=None):
     """Check all traces; for each trace file, after a violation the offending script is cut out and the rest
     is re-checked, so that every violating script of the run is reported (bounded)."""
     allv = []
@@ -346,8 +346,9 @@ def monitor(traces, names, work, until_clean=True):
         viols = []
         cur = tr
         n0 = 0
-        # (VERIF_MONITOR_ROUNDS: how many violating scripts are cut out and reported per trace file; the seeded-change matrix uses 1)
-        for rnd in range(max(1, min(8, int(os.environ.get("VERIF_MONITOR_ROUNDS", "8"))))):
+        # (rounds: how many violating scripts are cut out and reported per trace file - a changed tree with many violating scripts
+        # must still be judged quickly; VERIF_MONITOR_ROUNDS, default 3)
+        for rnd in range(max(1, min(8, rounds or int(os.environ.get("VERIF_MONITOR_ROUNDS", "3"))))):
             v, n = monitor_one(cur, names, work, i * 10 + rnd)
             if rnd == 0:
                 n0 = n
@@ -481,7 +482,8 @@ def engine(tier):
             t2 = time.time()
             # one monitor pass with every formula: on a tree where everything holds the per-property checks need no further TLC run
             allnames = sorted({n for v in INVS.values() for n in v})
-            first, nlines = monitor(traces, allnames, work)
+            # (one round: this pass only has to tell whether - and which - formulas fail; the per-property checks report the scripts)
+            first, nlines = monitor(traces, allnames, work, rounds=1)
             failing = sorted({v["formula"] for v in first})
             t2b = time.time()
             mc = mc_future.result()
